@@ -230,14 +230,14 @@ class Ancillary(object):
             mag += abs(t)
         return v, mag
 
-    def magnetic_ref(self, coeff, order, grid):
-        k = ('m', coeff, bool(order), len(grid))
+    def magnetic_ref(self, coeff, order, grid, gkey=None):
+        k = ('m', coeff, bool(order), len(grid), gkey)
         if k not in self._ref:
             self._ref[k] = [self.magnetic_value(coeff, Q, order) for Q in grid]
         return self._ref[k]
 
-    def cm_ref(self, name, grid):
-        k = ('c', name, len(grid))
+    def cm_ref(self, name, grid, gkey=None):
+        k = ('c', name, len(grid), gkey)
         if k not in self._ref:
             self._ref[k] = [self.cm_value(self.cm[name], Q) for Q in grid]
         return self._ref[k]
